@@ -114,7 +114,10 @@ class Contracts(object):
         """largest partner size of any `required` pair involving a set of n tokens (superset)."""
         key = ('bmax', measure, t, n)
         if key not in self._cache:
-            lo, hi = n, int(n / (t * t)) + 3
+            # (capped: for thresholds next to zero the true maximum is astronomically large or not
+            #  representable; a smaller value only makes the contract demand less)
+            hi = 10 ** 7 if t * t * 10 ** 7 <= n else int(n / (t * t)) + 3
+            lo, hi = n, max(n, hi)
             # classify(n, b, o=n) is monotone decreasing in b
             while lo < hi:
                 mid = (lo + hi + 1) // 2
